@@ -111,7 +111,11 @@ Definition svc_le (a b : service) : bool :=
   | Lt => true | Gt => false
   | Eq => match String.compare (s_name a) (s_name b) with
           | Lt => true | Gt => false
-          | Eq => match String.compare (s_ns a) (s_ns b) with Gt => false | _ => true end
+          | Eq => match String.compare (s_ns a) (s_ns b) with
+                  | Lt => true | Gt => false
+                  (* /repo 2ebf73e: then K8sAttributes.ObjectName (empty for every modelled service), then hostname *)
+                  | Eq => match String.compare (s_host a) (s_host b) with Gt => false | _ => true end
+                  end
           end
   end.
 
@@ -394,7 +398,9 @@ Definition pick_best_admissible (m : mesh) (sorted : list service) (cfg h : stri
   match filter is_kube vis with
   | (_ :: _) as ks => map s_ns ks
   | [] => let mn := fold_right (fun s a => N.min (s_ctime s) a) (match vis with s :: _ => s_ctime s | [] => 0%N end) vis in
-          map s_ns (filter (fun s => N.eqb (s_ctime s) mn) vis)
+          (* /repo 2ebf73e: equally old services tie-break on the smaller namespace *)
+          match min_string (map s_ns (filter (fun s => N.eqb (s_ctime s) mn) vis)) with
+          | Some n => [n] | None => [] end
   end.
 Definition pick_best (m : mesh) (sorted : list service) (cfg h : string) (hint : list (string * string))
   : option string :=
@@ -581,7 +587,8 @@ Definition vs_visible_spec (m : mesh) (cfg : string) (v : vsvc) : bool :=
 (* ------------------------------------------------------------------ DestinationRules (push_context.go setDestinationRules,
    destination_rule.go mergeDestinationRule with EnableEnhancedDestinationRuleMerge, PushContext.destinationRule).
    Rules without workloadSelector; only names (the "from" lists) and exportTo are modelled, not rule contents. *)
-Record drule := mkDr { d_name : N; d_ns : string; d_host : string; d_export : list string; d_ctime : N }.
+Record drule := mkDr { d_name : N; d_ns : string; d_host : string; d_export : list string; d_ctime : N;
+                       d_tp : bool (* has a top-level trafficPolicy; every rule has one subset named after it *) }.
 (* ConsolidatedDestRule: exportTo of the first rule, names of every rule merged into it *)
 Record mdr := mkMdr { md_export : list string; md_from : list (string * N) }.
 
